@@ -147,6 +147,14 @@ func runC03(r *run) {
 				ops[i].lvl = ops[g.intn(i)].lvl
 			}
 		}
+		if h%6 == 5 {
+			// a per-level list that is filled and emptied again by Remove (then the class writers apply again),
+			// at a random place of the history
+			lv, w := lvls[g.intn(len(lvls))], 1+g.intn(7)
+			at := g.intn(len(ops) + 1)
+			pair := []c03Op{{name: "addLevelWriter", lvl: lv, w: w}, {name: "removeLevelWriter", lvl: lv, w: w}}
+			ops = append(ops[:at:at], append(pair, ops[at:]...)...)
+		}
 		r.emit("C03 reset 8", "ok")
 		r.emit("C03 regerr 41", "ok")
 		r.emit("C03 regerr 42", "ok")
